@@ -159,4 +159,21 @@ theorem chain_walk (A : Alg α) (edge : Nat → Nat → Option α) (links : List
       rw [ih, hMe, List.getLast_cons (List.cons_ne_nil _ _)]
       rw [A.assoc, ← A.assoc (φ t), ← A.assoc (φ t), (hp.1 t).2, A.one_mul, ← A.assoc]
 
+
+/-- `chain_walk` for a path given as `Node.path` returns it (head, last, `zip` with its tail) -/
+theorem chain_of_path (A : Alg α) (edge : Nat → Nat → Option α) (links : List (Nat × Nat)) (φ ψ : Nat → α)
+    (hp : IsPot A edge links φ ψ) (p : List Nat) (s t : Nat) (hh : p.head? = some s) (hl : p.getLast? = some t)
+    (hw : IsWalk links p) (m r : α) (hc : chain A.mul A.inv edge (p.zip p.tail) m = some r) :
+    r = A.mul (A.mul (ψ t) (φ s)) m := by
+  cases p with
+  | nil => simp at hh
+  | cons s' p' =>
+    simp only [List.head?_cons, Option.some.injEq] at hh
+    subst hh
+    have hlast : (s' :: p').getLast (List.cons_ne_nil _ _) = t := by
+      rw [List.getLast?_eq_some_getLast (List.cons_ne_nil _ _)] at hl
+      exact Option.some.inj hl
+    have := chain_walk A edge links φ ψ hp p' s' m r hw (by simpa using hc)
+    rw [this, hlast]
+
 end BeyondVerif.Chain
